@@ -29,6 +29,9 @@ type c06rCase struct {
 	Cfg  kit06.Config `json:"config"`
 	// TargetDB: 0 means target.db=-1, n>0 a fixed target database n-1
 	TargetDB int `json:"target_db_plus1,omitempty"`
+	// Cloud (rump): scan.special_cloud; "tencent_cluster": the source has one logical database (0),
+	// the database list is not taken from INFO keyspace
+	Cloud string `json:"scan_special_cloud,omitempty"`
 }
 
 // c06rObserved: the (source db, key) pairs that reached the target, from its command log.
@@ -139,7 +142,12 @@ func c06Rump(t *testing.T, c c06rCase) (kind, what string) {
 			reg := mredis.NewRegistry()
 			src := mredis.New(mredis.Options{Registry: reg})
 			dst := mredis.New(mredis.Options{Registry: reg})
+			conf.Options.ScanSpecialCloud = c.Cloud
+			defer func() { conf.Options.ScanSpecialCloud = "" }()
 			for _, db := range kit06.DBs {
+				if c.Cloud != "" && db != 0 {
+					continue
+				}
 				for _, k := range kit06.Keys() {
 					src.Put(db, k, &mredis.Entry{Kind: "string", Str: []byte(kit06.Marker(db))})
 				}
@@ -179,8 +187,23 @@ func c06Rump(t *testing.T, c c06rCase) (kind, what string) {
 			default:
 				var got map[string]bool
 				got, kind, what = c06rObserved(dst, c)
-				if kind == "" {
+				if kind == "" && c.Cloud == "" {
 					kind, what = kit06.Compare(c.Cfg, "rump", got)
+				}
+				if kind == "" && c.Cloud != "" {
+					// one logical database: the decision for every key of database 0
+					for _, k := range kit06.Keys() {
+						want := kit06.Passes(c.Cfg, "rump", 0, k)
+						have := got["0/"+k]
+						if have && !want {
+							kind, what = "excluded-key-copied", fmt.Sprintf("key %q of db 0 is excluded by the configuration and reached the target (scan.special_cloud=%s)", k, c.Cloud)
+							break
+						}
+						if want && !have {
+							kind, what = "passing-key-missing", fmt.Sprintf("key %q of db 0 passes the configuration and did not reach the target (scan.special_cloud=%s)", k, c.Cloud)
+							break
+						}
+					}
 				}
 			}
 		})
@@ -247,6 +270,23 @@ func TestVerif_C06R(t *testing.T) {
 				ev.State(h)
 				if strings.Contains(cfg.String(), "[") {
 					ev.Nontrivial(h)
+				}
+			}
+			if path == "rump" {
+				// the cloud scanner whose database list does not come from INFO keyspace
+				for _, tdb := range []int{0, 1} {
+					c := c06rCase{Path: path, Cfg: cfg, TargetDB: tdb, Cloud: "tencent_cluster"}
+					k, w := c06Rump(t, c)
+					n++
+					if k != "" {
+						ev.Violate("C06|"+path+"|"+k, fmt.Sprintf("%s (path %s, target.db=%d, %s)", w, path, tdb-1, cfg), c)
+					}
+					ev.Outcome(path + "-cloud:" + k)
+					h := ev.HashS(fmt.Sprintf("%s-cloud%s%d", path, cfg.String(), tdb))
+					ev.State(h)
+					if strings.Contains(cfg.String(), "[") {
+						ev.Nontrivial(h)
+					}
 				}
 			}
 			if n%40 == 1 {
